@@ -11,7 +11,10 @@
 (*     that raises only loses its own connection; a handler blocked in     *)
 (*     rfile.read() holds only its own thread - or the whole server when   *)
 (*     Threaded = FALSE),                                                  *)
-(*   - the indication queue and the callback thread,                       *)
+(*   - the indication queue (capacity QCap, 0 = unbounded) and the         *)
+(*     callback thread; when Gating, the tester may hold the callback      *)
+(*     (a slow consumer): the callback thread then sits in the callback    *)
+(*     with one indication and the queue fills up,                         *)
 (*   - peers that keep a connection open whose request made the server     *)
 (*     wait for body bytes.                                                *)
 (* TLC checks, for every sequence, that every answered request satisfies   *)
@@ -25,59 +28,117 @@ CONSTANTS MaxReq,        \* requests per history
           Alphabet,      \* set of request classes the peer may send
           San, ClChk,    \* variant of the code (see ListenerHttpImplOps)
           Threaded,      \* ThreadingMixIn present
-          FinalValid     \* TRUE: the last request of a history is the valid one
+          FinalValid,    \* TRUE: the last request of a history is the valid one
+          QCap,          \* max_ind_queue_size (0 = unbounded)
+          Gating,        \* the tester may hold the callback once per history
+          QfRet          \* `return` after the queue.Full error response
 
 VARIABLES hist,      \* request classes sent so far (one connection each)
-          conn,      \* per connection: [st, obs]; st: sent | waiting | done
+          conn,      \* per connection: [st, obs, env, forced];
+                     \* st: sent | waiting | done
           queue,     \* indication queue (connection indices)
-          delivered  \* bag of delivered indications as a sequence
-vars == <<hist, conn, queue, delivered>>
+          delivered, \* bag of delivered indications as a sequence
+          gate,      \* open | held : the tester holds the callback
+          inflight,  \* indication the callback thread sits on (0 = none)
+          script     \* what the tester did: req(class) | block | release
+vars == <<hist, conn, queue, delivered, gate, inflight, script>>
 
-Fl == [san |-> San, clchk |-> ClChk]
+Fl == [san |-> San, clchk |-> ClChk, qfret |-> QfRet]
 
-Init == hist = << >> /\ conn = << >> /\ queue = << >> /\ delivered = << >>
+Init == /\ hist = << >> /\ conn = << >> /\ queue = << >> /\ delivered = << >>
+        /\ gate = "open" /\ inflight = 0 /\ script = << >>
+
+NoneSent == \A i \in DOMAIN conn : conn[i].st # "sent"
+(* what the tester can see: nothing it holds, everything accepted so far   *)
+(* was delivered, no connection of its own still open                      *)
+Drained == /\ gate = "open" /\ queue = << >> /\ inflight = 0
+           /\ \A i \in DOMAIN conn : conn[i].st = "done"
+Step(op, c) == [op |-> op, cls |-> c]
 
 (* the peer is sequential: it sends the next request when the previous one *)
 (* was answered, dropped, or is observed to make the server wait           *)
-CanSend == /\ Len(hist) < MaxReq
-           /\ \A i \in DOMAIN conn : conn[i].st # "sent"
+CanSend == Len(hist) < MaxReq /\ NoneSent
 Send(c) ==
-  /\ (FinalValid /\ Len(hist) = MaxReq - 1) => c = ValidReq
+  /\ (FinalValid /\ Len(hist) = MaxReq - 1) => (c = ValidReq /\ gate = "open")
   /\ hist' = Append(hist, c)
-  /\ conn' = Append(conn, [st |-> "sent", obs |-> Blank])
-  /\ UNCHANGED <<queue, delivered>>
+  /\ conn' = Append(conn, [st |-> "sent", obs |-> Blank, forced |-> FALSE,
+                           env |-> [qcap |-> QCap, drained |-> Drained]])
+  /\ script' = Append(script, Step("req", c))
+  /\ UNCHANGED <<queue, delivered, gate, inflight>>
+
+(* the tester holds / releases the callback (between two requests)         *)
+Block ==
+  /\ Gating /\ gate = "open" /\ NoneSent /\ Len(hist) < MaxReq
+  /\ \A k \in DOMAIN script : script[k].op # "block"
+  /\ gate' = "held"
+  /\ script' = Append(script, Step("block", ValidReq))
+  /\ UNCHANGED <<hist, conn, queue, delivered, inflight>>
+Release ==
+  /\ gate = "held" /\ NoneSent
+  /\ gate' = "open"
+  /\ delivered' = IF inflight # 0 THEN Append(delivered, inflight)
+                  ELSE delivered
+  /\ inflight' = 0
+  /\ script' = Append(script, Step("release", ValidReq))
+  /\ UNCHANGED <<hist, conn, queue>>
 
 CanHandle == Threaded \/ \A j \in DOMAIN conn : conn[j].st # "waiting"
+
+(* number of requests the tester had sent when it held the callback        *)
+ReqsBeforeBlock ==
+  LET ks == {k \in DOMAIN script : script[k].op = "block"} IN
+  IF ks = {} THEN 0
+  ELSE Cardinality({j \in 1..(CHOOSE k \in ks : TRUE) : script[j].op = "req"})
+
+(* Queue.put(block=False) raises queue.Full                                *)
+QueueFullNow == QCap > 0 /\ Len(queue) >= QCap
 
 Handle(i) ==
   /\ conn[i].st = "sent"
   /\ CanHandle
-  /\ LET o == Pipeline(hist[i], Fl, FALSE) IN
-     /\ conn' = [conn EXCEPT ![i] =
-                   [st |-> IF o.outcome = "waiting" THEN "waiting" ELSE "done",
-                    obs |-> o]]
+  /\ LET o == Pipeline(hist[i], Fl, QueueFullNow) IN
+     /\ conn' = [conn EXCEPT ![i].st =
+                   IF o.outcome = "waiting" THEN "waiting" ELSE "done",
+                              ![i].obs = o,
+                              \* the queue is full of indications that cannot
+                              \* leave it: the callback thread is held with
+                              \* one, and all of them were sent after the
+                              \* tester held the callback (i.e. it does not
+                              \* take a slow callback thread to get here)
+                              ![i].forced =
+                                 /\ QueueFullNow /\ gate = "held"
+                                 /\ inflight > ReqsBeforeBlock
+                                 /\ \A k \in DOMAIN queue :
+                                       queue[k] > ReqsBeforeBlock]
      /\ queue' = IF o.ndeliv = 1 THEN Append(queue, i) ELSE queue
-  /\ UNCHANGED <<hist, delivered>>
+  /\ UNCHANGED <<hist, delivered, gate, inflight, script>>
 
 (* the peer gives up on a request the server waits on; what the handler    *)
 (* then writes goes to a half-closed connection and is not judged, but an  *)
 (* indication it accepts is queued like any other                          *)
 PeerClose(i) ==
   /\ conn[i].st = "waiting"
-  /\ LET o == AfterPeerClose(hist[i], Fl, FALSE) IN
+  /\ LET o == AfterPeerClose(hist[i], Fl, QueueFullNow) IN
      /\ conn' = [conn EXCEPT ![i].st = "done"]
      /\ queue' = IF o.ndeliv = 1 THEN Append(queue, i) ELSE queue
-  /\ UNCHANGED <<hist, delivered>>
+  /\ UNCHANGED <<hist, delivered, gate, inflight, script>>
 
+(* the callback thread: get() + callback; while the tester holds the       *)
+(* callback it gets one indication and sits on it until released           *)
 Deliver ==
-  /\ queue # << >>
+  /\ queue # << >> /\ gate = "open" /\ inflight = 0
   /\ delivered' = Append(delivered, Head(queue))
   /\ queue' = Tail(queue)
-  /\ UNCHANGED <<hist, conn>>
+  /\ UNCHANGED <<hist, conn, gate, inflight, script>>
+Take ==
+  /\ queue # << >> /\ gate = "held" /\ inflight = 0
+  /\ inflight' = Head(queue)
+  /\ queue' = Tail(queue)
+  /\ UNCHANGED <<hist, conn, delivered, gate, script>>
 
 Next == \/ CanSend /\ \E c \in Alphabet : Send(c)
         \/ \E i \in DOMAIN conn : Handle(i) \/ PeerClose(i)
-        \/ Deliver
+        \/ Deliver \/ Take \/ Block \/ Release
 Spec == Init /\ [][Next]_vars
 
 (* ---- binding to the requirement machine ---------------------------------*)
@@ -86,9 +147,15 @@ Event(i, final) ==
   [kind |-> "req", cls |-> hist[i],
    obs |-> IF final THEN [conn[i].obs EXCEPT !.ndeliv = NDeliv(i)]
            ELSE conn[i].obs,
+   env |-> conn[i].env,
    alive |-> [server |-> TRUE, callback |-> TRUE]]
 
-FailsOf(i, final) == Fails([n |-> i - 1], Event(i, final))
+(* state of the requirement machine after the first k requests (the peer   *)
+(* is sequential: when request k+1 exists, 1..k have their observation)    *)
+RECURSIVE ReqStateAfter(_)
+ReqStateAfter(k) == IF k = 0 THEN InitState
+                    ELSE Apply(ReqStateAfter(k - 1), Event(k, FALSE))
+FailsOf(i, final) == Fails(ReqStateAfter(i - 1), Event(i, final))
 Answered == {i \in DOMAIN conn : conn[i].st # "sent"}
 AllFails == UNION {FailsOf(i, FALSE) : i \in Answered}
 
@@ -109,11 +176,15 @@ InvNeverStuck == \A i \in DOMAIN conn : conn[i].st = "sent" => CanHandle
 
 (* once the callback thread has caught up, every clause - including        *)
 (* delivery of every accepted valid indication - holds for every request   *)
-Quiet == queue = << >> /\ Answered = DOMAIN conn
+Quiet == /\ queue = << >> /\ inflight = 0 /\ gate = "open"
+         /\ Answered = DOMAIN conn
 InvDelivered == Quiet => \A i \in DOMAIN conn : FailsOf(i, TRUE) = {}
 
 (* nothing is delivered that was not accepted, and nothing twice           *)
 InvNoSpurious == \A i \in DOMAIN conn : NDeliv(i) <= 1
+
+(* the bounded queue never holds more than its capacity                    *)
+InvQueueBound == QCap > 0 => Len(queue) <= QCap
 
 (* ---- alphabets ------------------------------------------------------------*)
 (* built constructively (TLC re-evaluates a substituted alphabet in every   *)
@@ -156,9 +227,37 @@ Exits == {ValidReq,
           [ValidReq EXCEPT !.body = "dupParam"],
           [ValidReq EXCEPT !.body = "nonInstance"]}
 
+(* the classes mixed into the bounded-queue histories: the two that reach  *)
+(* the enqueue, one per earlier exit kind (export ERROR, 400, 406), and    *)
+(* one that makes the server wait                                          *)
+QueueAlphabet == {ValidReq,
+                  [ValidReq EXCEPT !.body = "dupParam"],
+                  [ValidReq EXCEPT !.body = "unknownMethod"],
+                  [ValidReq EXCEPT !.body = "illformedXml"],
+                  [ValidReq EXCEPT !.accept = "bad"],
+                  [ValidReq EXCEPT !.clen = "long"]}
+QueueAlphabetSmall == {ValidReq,
+                       [ValidReq EXCEPT !.body = "dupParam"],
+                       [ValidReq EXCEPT !.body = "unknownMethod"],
+                       [ValidReq EXCEPT !.clen = "long"]}
+
 (* class lists for the harness (printed once by the Emit configuration)    *)
 Tup(c) == <<c.verb, c.accept, c.charset, c.range, c.ctype, c.cenc, c.clen,
             c.body>>
+
+(* tester scripts of complete histories in which the model's listener      *)
+(* takes the queue.Full branch for an indication because the tester holds  *)
+(* the callback (not merely because the callback thread is slow); printed  *)
+(* by TLC while it checks the bounded-queue configuration, replayed by the *)
+(* harness                                                                 *)
+Complete == Len(hist) = MaxReq /\ Quiet
+            /\ \A i \in DOMAIN conn : conn[i].st = "done"
+HitFull == \E i \in DOMAIN conn :
+              /\ conn[i].forced
+              /\ hist[i].body \in {"validExport", "dupParam"}
+              /\ conn[i].obs.status = 200 /\ IsError(conn[i].obs)
+ScriptTup == [k \in DOMAIN script |-> <<script[k].op, Tup(script[k].cls)>>]
+InvEmitScripts == (Complete /\ HitFull) => PrintT(<<"SCR", ScriptTup>>)
 EmitClasses == PrintT(<<"CLS1", {Tup(c) : c \in UpTo1}>>)
                /\ PrintT(<<"CLS2", {Tup(c) : c \in UpTo2 \ UpTo1}>>)
 =============================================================================
